@@ -7,6 +7,7 @@ import FractopoModel.Generated.ValidationDefaults
 import FractopoModel.Generated.JunctionShift
 import FractopoModel.Lemmas.Underlap
 import FractopoModel.Generated.AreaValidator
+import FractopoModel.Generated.UnitVectorCompare
 /-!
 # C10 — near-threshold errors are reported inside the documented windows only
 (the window arithmetic; the detectors' geometry is tied by stream S10)
@@ -340,5 +341,28 @@ theorem C10_generated_stacked_validator {L' : Type} (is_ls : L' → Bool) (nb : 
     cases A <;> cases B <;> rfl
 
 end Utils
+
+/-! ### the direction comparison under SHARP TURNS -/
+
+/-- **Identical directions compare as equal, also when rounding pushes the dot product above 1.** In the regenerated `compare_unit_vector_orientation` two vectors
+that do not face opposite ways and whose dot product is close to 1 are "the same direction" -- whatever the exact value of the product (the product of two equal
+unit vectors is often 1.0000000000000002) and whatever arccos would say; otherwise, inside the domain of arccos, they are the same direction iff the angle does not
+exceed the threshold; outside it they are not. So a straight interior vertex never gives SHARP TURNS. -/
+theorem C10_generated_direction_compare {V : Type} (opposite : V → V → Bool) (dot : V → V → Rat) (close_to_one is_nan : Rat → Bool) (arccos rad2deg : Rat → Rat)
+    (u v : V) (thr : Rat) :
+    Gen.compare_unit_vector_orientation opposite dot close_to_one is_nan arccos rad2deg u v thr =
+      (!(opposite u v) && (close_to_one (dot u v) ||
+        (!(decide (dot u v > 1) || decide (dot u v < -1) || is_nan (dot u v)) && !(decide (rad2deg (arccos (dot u v)) > thr))))) := by
+  unfold Gen.compare_unit_vector_orientation
+  simp only []
+  generalize dot u v = d
+  generalize opposite u v = o
+  generalize close_to_one d = c
+  generalize is_nan d = n
+  generalize rad2deg (arccos d) = a
+  cases o <;> cases c <;> cases n <;> by_cases h1 : d > 1 <;> by_cases h2 : d < -1 <;> by_cases h3 : a > thr <;> simp [h1, h2, h3]
+
+example : Gen.compare_unit_vector_orientation (fun (_ _ : Unit) => false) (fun _ _ => (1 : Rat) + 1 / 4503599627370496) (fun d => decide (d < 1 + 1 / 100000 ∧ d > 1 - 1 / 100000))
+    (fun _ => false) (fun _ => 0) (fun r => r) () () 100 = true := by decide +kernel
 
 end C10
